@@ -41,7 +41,7 @@ func addReinitParticipant(w *World, old int) (int, error) {
 // variants of genuine messages of a signing batch (these parts belong to the
 // C09 and C10 checks: verification must be back on after a reinit).
 func runC20(w *World, tier string, advMode string) (bool, interface{}) {
-	prop := map[string]string{"": "C20", "c09": "C09", "c10": "C10", "c04": "C04"}[advMode]
+	prop := map[string]string{"": "C20", "c09": "C09", "c10": "C10", "c04": "C04", "c14": "C14"}[advMode]
 	n, t := pickNT(w, tier)
 	if n > 4 && tier != "thorough" {
 		n = 4
@@ -182,6 +182,43 @@ func runC20(w *World, tier string, advMode string) (bool, interface{}) {
 				hashes[fmt.Sprintf("%x", o.ExtraData)] = true
 			}
 		}
+	}
+	if advMode == "c14" {
+		// request kind "finishing a reinitialisation": node v's reinit_dkg result is ready but held
+		// back; meanwhile a new round is opened on the same (new) nodes, whose opening proposal waits
+		// for v's stalled poller; then the submission races with the tick
+		vi := w.Tape.Choose(n, "victim")
+		v := w.Nodes[newIdx[vi]]
+		var prepared []byte
+		c2.Ops[vi].Submit = func(o *types.Operation, body []byte) *APIResult {
+			if prepared == nil && string(o.Type) == string(types.ReinitDKG) {
+				prepared = body
+				return &APIResult{ErrMsg: "held for the race"}
+			}
+			return w.CallAPI(v, "submit", "POST", "/handleProcessedOperationJSON", body)
+		}
+		c2.L.RunUntil(func() bool { return prepared != nil }, 200*n)
+		if prepared == nil {
+			return false, "reinit result never became ready"
+		}
+		c2.L.PausedPoll[newIdx[vi]] = true
+		c2.L.PausedOp[newIdx[vi]] = true
+		other := newIdx[(vi+1)%n]
+		w.Advance(2e9)
+		payloadB := w.StartDKGPayload(2+w.Tape.Choose(n-1, "tB"), newIdx)
+		if rp := w.CallAPI(w.Nodes[other], "startDKG", "POST", "/startDKG", payloadB); !rp.OK() {
+			return false, "second round not started: " + rp.ErrMsg
+		}
+		w.Stats.Fault("multi-round")
+		c2.L.RunUntil(func() bool { return false }, w.Tape.Choose(6*n, "moreSteps"))
+		waiting := w.Board.Len() - int(v.Offset())
+		if waiting < 1 {
+			return false, "nothing waiting for the victim"
+		}
+		if waiting > 3 {
+			waiting = 3
+		}
+		return raceAndJudge(w, v, &raceSpec{kind: "submit:reinit_dkg", method: "POST", path: "/handleProcessedOperationJSON", body: prepared, msgs: waiting}, tier, n, t)
 	}
 	c2.L.RunUntil(func() bool {
 		for _, idx := range newIdx {
@@ -398,6 +435,7 @@ func init() {
 	Register(&Scenario{Prop: "C20", Name: "C20", Run: func(w *World, tier string) (bool, interface{}) { return runC20(w, tier, "") }})
 	Register(&Scenario{Prop: "C09", Name: "C09-reinit", Run: func(w *World, tier string) (bool, interface{}) { return runC20(w, tier, "c09") }})
 	Register(&Scenario{Prop: "C10", Name: "C10-reinit", Run: func(w *World, tier string) (bool, interface{}) { return runC20(w, tier, "c10") }})
+	Register(&Scenario{Prop: "C14", Name: "C14-reinit", Run: func(w *World, tier string) (bool, interface{}) { return runC20(w, tier, "c14") }})
 	Register(&Scenario{Prop: "C04", Name: "C04-reinit", Run: func(w *World, tier string) (bool, interface{}) { return runC20(w, tier, "c04") }})
 }
 
